@@ -13,6 +13,7 @@ structure P where
   mandatory : Option Bool := none
   minEl : Option Nat := none
   maxEl : Option Nat := none
+  presence : Option String := none
 deriving DecidableEq, Repr, Inhabited
 
 /-- what a refine states wins, the rest stays -/
@@ -22,7 +23,8 @@ def P.patch (base patch : P) : P :=
     dflt := patch.dflt.orElse fun _ => base.dflt,
     mandatory := patch.mandatory.orElse fun _ => base.mandatory,
     minEl := patch.minEl.orElse fun _ => base.minEl,
-    maxEl := patch.maxEl.orElse fun _ => base.maxEl }
+    maxEl := patch.maxEl.orElse fun _ => base.maxEl,
+    presence := patch.presence.orElse fun _ => base.presence }
 
 inductive Kind | cont | list
 deriving DecidableEq, Repr, Inhabited
